@@ -403,7 +403,8 @@ PRED = ["perp_lines2", "perp_lines3", "perp_planes", "parallel_lines2", "paralle
 @st.composite
 def pred_case(draw, tier="quick"):
     return {"cfg": draw(st.sampled_from(PRED)), "truth": draw(st.booleans()), "v": [draw(C.ints(6)) for _ in range(16)], "s": [draw(C.scale()) for _ in range(2)],
-            "k": draw(st.sampled_from([1, 2, -1, 3])), "coll": draw(st.sampled_from([0, 0, 2])), "pyth": [draw(st.integers(0, 5)) for _ in range(4)]}
+            "k": draw(st.sampled_from([1, 2, -1, 3])), "coll": draw(st.sampled_from([0, 0, 2])), "pyth": [draw(st.integers(0, 5)) for _ in range(4)],
+            "far": draw(st.sampled_from([0, 0, 14, 17]))}
 
 
 UNIT = [(3, 4, 5), (4, 3, 5), (-3, 4, 5), (5, 12, 13), (-5, -12, 13), (0, 1, 1), (1, 0, 1), (8, -15, 17), (-4, -3, 5), (12, -5, 13)]
@@ -472,7 +473,12 @@ def run_pred(c):
             r, f = call(site, is_perpendicular, two(l), m)
             expect(r, f)
         elif cfg == "parallel_lines2":
-            b = np.array(v[4:6], float)
+            # both lines may be far from the origin (exactly representable offsets of 2^14 or 2^17)
+            # (only the clearly non-parallel pairs: two distinct parallel lines at distance 1e5 from the origin differ by less than
+            # the library's absolute tolerance after normalisation, which is the documented limit of its tolerances)
+            F = 2.0 ** c.get("far", 0) if (c.get("far") and not truth) else 0.0
+            a = a + F * np.array([1.0, -1.0])
+            b = np.array(v[4:6], float) + F * np.array([-1.0, 2.0])
             e = d * c["k"] if truth else d * c["k"] + perp
             if np.linalg.matrix_rank(np.stack([d, b - a])) < 2:
                 raise Skip("same line")
@@ -537,7 +543,10 @@ def run_pred(c):
             n2 = n1 * c["k"] if truth else n1 * c["k"] + perp
             if v[6] * c["k"] == v[7] and truth:
                 raise Skip("equal planes")
-            e1, e2 = Plane(np.append(n1, v[6]) * s[0]), Plane(np.append(n2, v[7]) * s[1])
+            F = 2.0 ** (c.get("far", 0) if not truth else 0)  # planes far from the origin: offsets multiplied by 2^14 or 2^17
+            if c.get("far") and not truth and (v[6] == 0 or v[7] == 0):
+                raise Skip("plane through the origin")
+            e1, e2 = Plane(np.append(n1, v[6] * F) * s[0]), Plane(np.append(n2, v[7] * F) * s[1])
             r, f = call(site, two(e1).is_parallel, e2)
             expect(r, f)
         else:
@@ -545,7 +554,9 @@ def run_pred(c):
             a = np.array(v[8:11], float)
             if abs(np.dot(n1, a) + v[6]) < 1e-12:
                 raise Skip("line in plane")
-            e1 = Plane(np.append(n1, v[6]) * s[0])
+            F = 2.0 ** (c.get("far", 0) if not truth else 0)
+            e1 = Plane(np.append(n1, v[6] * F) * s[0])
+            a = a * F
             l = Line(P(a), P(a + dd))
             r, f = call(site, e1.is_parallel, l)
             expect(r, f)
@@ -574,6 +585,8 @@ def run_pred(c):
         if abs(np.linalg.det(np.stack([a, b, off]))) < 0.5:
             raise Skip("accidentally dependent")
         els = [a, b, third, extra if truth else off]
+        # determinants are compared with an absolute tolerance of 1e-8 by design: keep magnitudes small (as for coplanar3)
+        s = [x if abs(x) in (0.5, 1.0, 2.0) else math.copysign(1.0, x) for x in s]
         cls = Point if cfg == "collinear2" else Line
         fn = is_collinear if cfg == "collinear2" else is_concurrent
         objs = [cls(e * (s[i % 2])) for i, e in enumerate(els)]
@@ -693,6 +706,6 @@ LAWS = [
     Law("predicates_mixed_collections", lambda tier: mixed_case(tier), run_mixed, lambda c: len({p["mode"] for p in c["pos"]}) > 1,
         lambda c: [c["what"]] + sorted({p["mode"] for p in c["pos"]}), {"quick": 800, "thorough": 15000},
         "is_collinear/is_concurrent (4 arguments) and is_coplanar (5 arguments) on collections whose positions have different truth values", shard=300),
-    Law("predicates", lambda tier: pred_case(tier), run_pred, lambda c: True, lambda c: [c["cfg"], "true" if c["truth"] else "false"], {"quick": 2500, "thorough": 40000},
+    Law("predicates", lambda tier: pred_case(tier), run_pred, lambda c: True, lambda c: [c["cfg"], "true" if c["truth"] else "false"] + (["far-from-origin"] if c.get("far") and not c["truth"] and c["cfg"].startswith("parallel") else []), {"quick": 2500, "thorough": 40000},
         "is_perpendicular / is_parallel / is_cocircular / is_collinear / is_coplanar / is_concurrent exact truth values; angle_bisectors", shard=400),
 ]
